@@ -54,9 +54,9 @@ def check_props(pid):
     thms = re.findall(r"^\s*(?:Theorem|Lemma|Corollary)\s+(\w+)", src, re.M)
     res["theorems"] = thms
     res["obligations"] = len(thms)
-    res["checker_cmd"] = (f"cd {build.COQ} && sh mk_project.sh && make -j{build.JOBS} -k && "
-                          f"coqc -Q . V {vfile}   (Coq 8.16.1, full .vo build)")
-    ok, log = build.coq_make()
+    res["checker_cmd"] = (f"cd /verif && ./coqmake {vfile}o && cd coq && coqc -Q . V {vfile}"
+                          "   (Coq 8.16.1, full .vo build of the property file and everything it depends on)")
+    ok, log = build.coq_make([vfile + "o"])
     res["log"] = log[-4000:]
     deps = build.vo_deps(vfile)
     res["files"] = deps
